@@ -489,7 +489,9 @@ func (a *sparseArrayObject) exportToArrayOrSlice(dst reflect.Value, typ reflect.
 		} else {
 			dst.Set(reflect.MakeSlice(typ, l, l))
 		}
-		ctx.putTyped(a.val, typ, dst.Interface())
+		if typ.Kind() != reflect.Array {
+			ctx.putTyped(a.val, typ, dst.Interface())
+		}
 		for _, item := range a.items {
 			val := item.value
 			if p, ok := val.(*valueProperty); ok {
@@ -503,6 +505,9 @@ func (a *sparseArrayObject) exportToArrayOrSlice(dst reflect.Value, typ reflect.
 			if err != nil {
 				return fmt.Errorf("could not convert array element %v to %v at %d: %w", item.value, typ, idx, err)
 			}
+		}
+		if typ.Kind() == reflect.Array {
+			ctx.putTyped(a.val, typ, dst.Interface())
 		}
 		return nil
 	}
